@@ -7,4 +7,7 @@ PINS = {
 
 
 def generate():
-    return modelpins.generate_for("C12", PINS)
+    text, changed = modelpins.generate_for("C12", PINS)
+    if changed:
+        print("PIN-MISMATCH PinsC12: %s changed; the hand-written model of C12 mirrors the pinned text" % ", ".join(changed))
+    return text
